@@ -5,6 +5,8 @@ sys.path.insert(0, os.path.join(os.path.dirname(os.path.abspath(__file__)), 'vx'
 import registry
 
 TEXT = {
+ 'C12': ('Deductive proof (Verus) of the frame condition on the real InterceptedService::call with the real Request::{from_http,into_parts,from_parts,into_http}: on accept exactly one inner call whose uri/method/version/body are the original and whose headers are exactly the interceptor\'s metadata (no sanitising); on reject the inner service is not called and ResponseFuture::poll resolves to exactly Status::into_http (200, application/grpc, grpc-status/message/details + sanitized metadata, empty body).',
+         'Assumed: tower Service seen through a ghost call log, pin-project projections, http::Request/Response records; Status::into_http contract is proved in unit status (same clause text).'),
  'C04': ('Deductive proof (Verus) on the real status.rs: Code::{from_i32,from_bytes,to_header_value} equal independent tables for ALL inputs (from_bytes total: any byte string), Status::add_header/to_header_map write exactly code/message/details/sanitized metadata and never fail, Status::from_header_map is total (no panic obligation left: every expect/unwrap discharged) and exact, lemma_status_roundtrip: write then read gives the same status; infer_grpc_status and code_from_h2 equal the mapping tables of the statement.',
          'Assumed: http::HeaderMap multimap contract, percent-encoding/base64 inverse axioms, vstd UTF-8 theory. Kani cross-check of the real h2/http constants and ENCODING_SET is planned in the Kani lane.'),
  'C01': ('Deductive proof (Verus) that the real encoder functions (finish_encoding, encode_item, EncodedBytes::poll_next, EncodeBody::poll_frame) emit exactly frame(flag, payload) per message regardless of readiness/batching (step relation enc_step over a ghost log of the source) and that the real decoder functions hand out exactly the next frame of the concatenated input for ANY chunking (history invariant), plus spec-level lemmas parse(wire(ms)++t) == ms ++ parse(t) and parse(u++c) == parse(u) ++ parse(rest(u)++c). Unbounded in message count, sizes and chunkings.',
